@@ -18,3 +18,47 @@ package obfuscation
 //@   ensures[excluded-only-same-path] result ==> exists(j, 0, len(excludedPaths), denotes(excludedPaths[j], cursor))
 //@   ensures[excluded-complete] cursor != "" && exists(j, 0, len(excludedPaths), denotes(excludedPaths[j], cursor)) ==> result
 //@   ensures[empty-cursor] cursor == "" ==> (result <==> exists(j, 0, len(excludedPaths), excludedPaths[j] == ""))
+
+// ---------------------------------------------------------------- the walk over the JSON value
+// fastjson accessors are observers of the (immutable) parsed value; the arena builds new values
+//@ pure Value.Type
+// (trusted library facts) the items of a parsed array are non-nil values; Get of a key listed by Visit is non-nil
+//@ extern Value.Array
+//@   modifies nothing
+//@   ensures forall(j, 0, len(result0), result0[j] != nil)
+//@ pure Value.Object
+//@ pure Value.Float64
+//@ pure Value.StringBytes
+//@ extern Object.Get
+//@   modifies nothing
+//@   ensures result != nil
+//@ pure Arena.NewString
+//@ pure Hasher.HashBytes
+//@ pure getKeys
+//@ extern Arena.NewArray
+//@   modifies nothing
+//@ extern Arena.NewObject
+//@   modifies nothing
+//@ extern Value.SetArrayItem
+//@   modifies nothing
+//@ extern Object.Set
+//@   modifies nothing
+//@ extern Value.Set
+//@   modifies nothing
+
+// (at the document root, cursor "", only the exclusion "" matches: the body prefixes alone do not exclude the whole body)
+//@ ghost func excludedHere(cursor string, paths []string) bool = ite(cursor == "", exists(j, 0, len(paths), paths[j] == ""), exists(j, 0, len(paths), denotes(paths[j], cursor)))
+
+// every string, number, boolean and null that is not on (or under) an excluded path is replaced by the hash of its
+// canonical text; a value on an excluded path is returned verbatim
+//@ func (Obfuscator).obfuscateJSON
+//@   prop C16
+//@   requires arena != nil
+//@   allocates cell
+//@   modifies heap
+//@   ensures[excluded-verbatim] result1 == nil && (onExcludedPath || excludedHere(cursor, excludedPaths)) ==> result0 != nil && *result0 == raw
+//@   ensures[string-hashed] result1 == nil && !onExcludedPath && !excludedHere(cursor, excludedPaths) && raw.Type() == fastjson.TypeString ==> result0 == arena.NewString(obfuscator.Hasher.HashBytes(raw.StringBytes()))
+//@   ensures[number-hashed] result1 == nil && !onExcludedPath && !excludedHere(cursor, excludedPaths) && raw.Type() == fastjson.TypeNumber ==> result0 == arena.NewString(obfuscator.Hasher.HashBytes(str2bytes(strconv.FormatFloat(raw.Float64(), 102, 2, 64))))
+//@   ensures[true-hashed] result1 == nil && !onExcludedPath && !excludedHere(cursor, excludedPaths) && raw.Type() == fastjson.TypeTrue ==> result0 == arena.NewString(obfuscator.Hasher.HashBytes(str2bytes("true")))
+//@   ensures[false-hashed] result1 == nil && !onExcludedPath && !excludedHere(cursor, excludedPaths) && raw.Type() == fastjson.TypeFalse ==> result0 == arena.NewString(obfuscator.Hasher.HashBytes(str2bytes("false")))
+//@   ensures[null-hashed] result1 == nil && !onExcludedPath && !excludedHere(cursor, excludedPaths) && raw.Type() == fastjson.TypeNull ==> result0 == arena.NewString(obfuscator.Hasher.HashBytes(str2bytes("null")))
